@@ -85,6 +85,15 @@ pub fn run_case(f: &[&str]) -> String {
                 let dl = r0.data_length();
                 r0.with_data(rd(body.clone()), dl)
             }
+            "file" => {
+                // Response::from_file on a real temporary file: the declared length is the file size
+                let path = std::env::temp_dir().join(format!("th-harness-{}-{:?}.bin", std::process::id(), std::thread::current().id()));
+                std::fs::write(&path, &body).unwrap();
+                let r0 = Response::from_file(std::fs::File::open(&path).unwrap());
+                let _ = std::fs::remove_file(&path);
+                let dl = r0.data_length();
+                r0.with_data(rd(body.clone()), dl)
+            }
             "empty" => {
                 let r0 = Response::empty(st);
                 let dl = r0.data_length();
